@@ -1,11 +1,109 @@
-(* C13 — the property theorems, and nothing else. *)
-From VF Require Import Dir.Model Dir.Spec Dir.Proofs.
+(* C13 — the property theorems, and nothing else.
+
+   norm / hidden are the name normaliser and the hidden-file matcher of the
+   file system; every theorem holds for arbitrary ones.  The model
+   (Model.v) transcribes in_memory_prepopulated_directory.go; P (Spec.v:
+   p_step / trace_ok) is the predicate that Corr.v evaluates on traces of
+   the Go implementation. *)
+From VF Require Import Dir.Model Dir.Spec Dir.Abs Dir.Proofs Dir.Listing.
 Open Scope string_scope.
 
-(* The unrestricted statement "P holds on every trace of the model" is
-   false: the Go code (and so the model) lets a directory be renamed into
-   its own descendant (DESIGN §6 F8, known finding). *)
+(* P — the reference hierarchy as oracle for status/result/link counts/
+   listings, the change-counter predicate, the ChangeInfo predicate and the
+   listing-session predicate — holds along the model trace of every
+   history that does not rename a directory into itself or one of its own
+   descendants. *)
+Theorem trace_ok_model : forall norm hidden ops,
+  no_rename_into_own_descendant norm hidden ops ->
+  trace_ok norm hidden (mtrace norm hidden ops) = true.
+Proof. exact trace_ok_model_l. Qed.
+Print Assumptions trace_ok_model.
+
+(* The unrestricted statement is false: the Go code (and so the faithful
+   model) lets a directory be renamed into its own descendant, where POSIX
+   demands EINVAL (DESIGN §6 F8; known finding C13:rename-into-own-descendant).
+   The witness is replayed on the implementation by corpus/C13. *)
 Theorem trace_ok_refuted :
   exists ops, trace_ok (fun s => s) hidden_dot_h (mtrace (fun s => s) hidden_dot_h ops) = false.
 Proof. exact trace_ok_refuted_l. Qed.
 Print Assumptions trace_ok_refuted.
+
+(* dir_refines: run side by side from the initial states, the reference
+   hierarchy stays the abstraction of the model state after every history
+   (every operation commutes with the abstraction function), and the
+   oracle accepts every output of the model: status, returned object, link
+   count, listing contents, attributes. *)
+Theorem dir_refines : forall norm hidden ops,
+  no_rename_into_own_descendant norm hidden ops ->
+  srun norm hidden sinit ops = abs (run norm hidden init_state ops) /\
+  oracle_all norm hidden sinit (trace norm hidden init_state ops) = true.
+Proof. exact dir_refines_l. Qed.
+Print Assumptions dir_refines.
+
+(* changeid_strict: after any history whatsoever, for any further
+   operation and any directory: the change counter does not decrease; it
+   strictly increases if the directory's set of bindings changed; it is
+   unchanged otherwise. *)
+Theorem changeid_strict : forall norm hidden ops o x d d',
+  let st := run norm hidden init_state ops in
+  get_dir st x = Some d -> get_dir (fst (step norm hidden st o)) x = Some d' ->
+  (d_change d <= d_change d')%N /\
+  (modified (abs_dir d) (abs_dir d') = true -> (d_change d < d_change d')%N) /\
+  (modified (abs_dir d) (abs_dir d') = false -> d_change d = d_change d').
+Proof. exact changeid_strict_l. Qed.
+Print Assumptions changeid_strict.
+
+(* readdir_complete: after any history, list directory x page by page
+   ([segs]: before every page an arbitrary sequence of operations, then a
+   page of arbitrary size resumed from the cookie of the last entry
+   reported so far).  No entry is reported twice (the resume cookies of all
+   reported entries are pairwise different), and if the last page came back
+   short, every visible entry that was attached before the first page and
+   is still attached at the last page has been reported (so: exactly once). *)
+Theorem readdir_complete : forall norm hidden ops0 x segs d0,
+  let st0 := run norm hidden init_state ops0 in
+  get_dir st0 x = Some d0 -> segs <> [] ->
+  let stf := fst (fst (listing norm hidden st0 x 0 segs)) in
+  let all := concat (snd (fst (listing norm hidden st0 x 0 segs))) in
+  NoDup (map r_cookie all) /\
+  (snd (listing norm hidden st0 x 0 segs) = true ->
+   forall df e, get_dir stf x = Some df -> In e (d_entries d0) -> In e (d_entries df) ->
+     visible hidden e = true -> exists r, In r all /\ reports e r).
+Proof. exact readdir_complete_l. Qed.
+Print Assumptions readdir_complete.
+
+(* Every reachable state is well formed: per directory the normalised names
+   are pairwise different (entriesMap and entriesList agree), cookies
+   strictly increase along the entry list and stay below the change
+   counter, directories that were never initialised are empty, and all
+   references point to existing objects. *)
+Theorem reachable_well_formed : forall norm hidden ops,
+  let st := run norm hidden init_state ops in
+  VF.Dir.WF.WF norm (st_clock st) st.
+Proof. exact WF_run. Qed.
+Print Assumptions reachable_well_formed.
+
+(* ---- non-vacuity ------------------------------------------------------------ *)
+
+Definition demo : list op :=
+  [OVMkdir 0 "a"; OVOpen 1 "f" true false false; OVLink 0 "g" 0; OVMknod 0 ".h" MSymlink false;
+   OVReadDir 0 0 1; OVMkdir 0 "b"; OVRename 0 "a" 2 "A"; OVReadDir 0 2 1; OVReadDir 0 4 5;
+   OCreateChildren 0 [("z", NewLeafC KFile); ("c", NewDirC)] true; ORemoveAll 0 "b"; OVRemove 0 "g" false true].
+
+(* The hypothesis is satisfiable by a history that renames directories,
+   lists with interleaved mutations and removes recursively ... *)
+Example demo_allowed : no_rename_into_own_descendant lower hidden_dot_h demo.
+Proof. vm_compute. reflexivity. Qed.
+
+(* ... and reaches a non-trivial state. *)
+Example demo_state :
+  map (fun d => (length (d_entries d), d_deleted d, d_change d)) (st_dirs (run lower hidden_dot_h init_state demo))
+  = [(3, false, 9%N); (0, true, 2%N); (0, true, 2%N); (0, false, 0%N)].
+Proof. vm_compute. reflexivity. Qed.
+
+(* A listing in three pages with a removal and a creation in between reaches its end. *)
+Example demo_listing :
+  let '(_, pages, fin) := listing lower hidden_dot_h (run lower hidden_dot_h init_state [OVMkdir 0 "a"; OVMkdir 0 "b"; OVMkdir 0 "c"]) 0 0
+        [([], 1); ([OVRemove 0 "b" true true; OVMkdir 0 "d"], 1); ([], 5)] in
+  (map (map r_name) pages, fin) = ([["a"]; ["c"]; ["d"]], true).
+Proof. vm_compute. reflexivity. Qed.
